@@ -216,6 +216,7 @@ class Generator:
         cfg = {
             'kind': spec.get('kind') or ('footer' if impl == 'footer' else ('vec' if impl == 'vec' else impl)),
             'drain_drop': spec.get('drain_drop'),
+            'cb': spec.get('cb'),
             'guard': spec.get('guard'),
             'strip_nested': spec.get('strip_nested'),
             'drop_takes_state': spec.get('drop_takes_state'),
